@@ -197,9 +197,11 @@ pub fn run_check(replay: Option<Value>) -> i32 {
     for m in crate::run::M6 {
         for backward in [false, true] {
             for (pi, (p0, span)) in sprobs.iter().enumerate() {
+              for (tli, tl) in [1e-7, 1e-10].iter().enumerate() {
+                let tl = *tl;
                 let pr = if backward { reflect(p0) } else { p0.clone() };
                 let xend = if backward { -*span } else { *span };
-                let mut c = Cfg::new(m, 0.0, xend, &pr.y0).tol(1e-7, 1e-9);
+                let mut c = Cfg::new(m, 0.0, xend, &pr.y0).tol(tl, tl * 1e-2);
                 c.dense = true;
                 c.user_jac = true;
                 if m == Method::RK4 {
@@ -227,12 +229,18 @@ pub fn run_check(replay: Option<Value>) -> i32 {
                         ts.push(s.t[k] + th * (s.t[k + 1] - s.t[k]));
                     }
                 }
-                let bound = 20.0 * worst_end + 50.0 * 1e-7;
+                // BDF's interpolant is the polynomial the step itself is built on ("matches the accuracy of
+                // the step": measured 1.00 on the clean tree, also for RK23); the Runge-Kutta interpolants
+                // are of lower order than their steps (measured up to 39 for Radau, 35 for DOPRI5)
+                let bound = if m == Method::BDF { 3.0 * worst_end + 5.0 * tl } else { 20.0 * worst_end + 50.0 * tl };
                 let report = |api: &str, worst: f64, rep: &mut Report| {
+                    if std::env::var("VERIF_DEBUG").is_ok() {
+                        println!("DBG {} b={} p={} {} in={:e} end={:e} ratio={:.2}", mname(m), backward as u8, pi, api, worst, worst_end, worst / worst_end);
+                    }
                     rep.validated += 1;
                     *rep.tags.entry("sol-vs-endpoints".into()).or_insert(0) += 1;
                     if !(worst <= bound) {
-                        let key = format!("solinterior:{}:{}:{}:{}", mname(m), backward as u8, pi, api);
+                        let key = format!("solinterior:{}:{}:{}:{}:{}", mname(m), backward as u8, pi, tli, api);
                         rep.violations.push(
                             Violation::new(&key, "sol-interior", format!("{}{} on {}: worst {} error inside steps {:e} vs worst endpoint error {:e}", mname(m), if backward { " backward" } else { "" }, pr.name, api, worst, worst_end), json!({"key": key}))
                                 .with("method", mname(m))
@@ -266,6 +274,27 @@ pub fn run_check(replay: Option<Value>) -> i32 {
                     _ => f64::INFINITY,
                 };
                 report("t_eval", w3, &mut rep);
+                // (4) dense output of a run stopped by a terminal event inside a step: the truncated
+                // last segment is as good as the others
+                let mut ce = c.clone();
+                ce.events = vec![crate::env::EventSpec::new(crate::env::EvKind::T(0.613 * xend)).term(1)];
+                let re = run(&pr, &ce);
+                rep.evaluations += 1;
+                let w4 = match re.sol() {
+                    Some(se) if se.status == Status::UserInterrupt && se.t.len() >= 2 => {
+                        let mut w: f64 = 0.0;
+                        for k in 0..se.t.len() - 1 {
+                            for th in [0.25, 0.5, 0.75, 0.97] {
+                                let t = se.t[k] + th * (se.t[k + 1] - se.t[k]);
+                                w = w.max(se.sol(t).map(|v| errof(t, &v)).unwrap_or(f64::INFINITY));
+                            }
+                        }
+                        w
+                    }
+                    _ => f64::INFINITY,
+                };
+                report("sol(after terminal event)", w4, &mut rep);
+              }
             }
         }
     }
